@@ -222,3 +222,33 @@ Print Assumptions C10_broadcast_skips_closed_units.
 Example C10_source_broadcast_request_witness :
   MBc.delivered (MBc.running_units None [MBc.mk_unit_chan 1 true; MBc.mk_unit_chan 2 false; MBc.mk_unit_chan 3 true]) = [1; 3].
 Proof. vm_compute. reflexivity. Qed.
+
+(* ---- the loop of TestSettings::new (C06) *)
+
+(* C06 "per-test settings resolve by the documented precedence, setting by setting": the body of the loop over the
+   profile's overrides -- the platform guards, the filter guard and the eleven `if x.is_none() { if let Some(v) =
+   override_.data.x { x = Some(..) } }` blocks -- regenerated from the source is, for EVERY setting (priority, threads-
+   required, run-extra-args, retries, slow-timeout, leak-timeout, test-group, success-output, failure-output and the two
+   junit store flags), [first_wins] with the model's [skips]: a skipped override changes nothing, a considered one fills
+   exactly the accumulators that are still empty with its own value of that setting. Treating `priority = 0` as unset
+   (the accumulator is then no Option any more: not translated), or skipping an override through a has_unresolved test
+   that looks at the wrong field, falsifies it. *)
+Theorem C06_source_override_loop_body :
+  forall e t st o d acc,
+    gen_loop_body (state_of st) (platform_of (MO.t_host t)) (option_map (fun _ => 0) (MO.filter_of o))
+      (match MO.filter_of o with Some f => MO.e_filter e f (MO.t_id t) | None => true end) d acc =
+    settings_tuple (fun s => first_wins (MO.skips e t (st, o)) (acc s) (d s)).
+Proof. exact gen_override_loop_body_is_model. Qed.
+Print Assumptions C06_source_override_loop_body.
+
+(* ... and [first_wins] is Model/Overrides.v [step], the function the precedence theorems of C06 fold over the overrides *)
+Theorem C06_step_is_first_wins :
+  forall e t acc co s,
+    MO.step e t acc co s = first_wins (MO.skips e t co) (acc s) (MO.data_get s (MO.ov_data (snd co))).
+Proof. exact step_is_first_wins. Qed.
+Print Assumptions C06_step_is_first_wins.
+
+Example C06_source_override_loop_body_witness :
+  first_wins false (@None N) (Some 0) = Some 0 /\ first_wins false (Some 5) (Some 0) = Some 5 /\
+  first_wins true (@None N) (Some 0) = None.
+Proof. repeat split. Qed.
